@@ -635,6 +635,154 @@ static void run_reader(uint64_t idx, vp::Local& L) {
     if (objs.size() >= 2) ++L.nontrivial;
 }
 
+
+// ---------------------------------------------------------------- sources that deliver several buffers (InputIterator<TSource, TItem>)
+// alphabet: node, way, relation, changeset, tag_list, CUT (a new buffer starts; two cuts in a row give a valid buffer without items)
+struct MockSource {
+    std::vector<Buffer> buffers;
+    size_t next = 0;
+    size_t reads = 0;
+    Buffer read() {
+        ++reads;
+        if (next < buffers.size()) return std::move(buffers[next++]);
+        return Buffer{};
+    }
+};
+static const int SRC_SYM[] = {K_NODE, K_WAY, K_REL, K_CS, K_TAGS, -1};
+static std::string show_src_seq(const std::vector<int>& q) {
+    std::string d = "source buffers: [";
+    for (int x : q) d += SRC_SYM[x] < 0 ? std::string{"] ["} : std::string{KN[SRC_SYM[x]]} + " ";
+    return d + "]";
+}
+struct Seen {
+    int type;
+    int64_t id;
+    bool operator==(const Seen& o) const { return type == o.type && id == o.id; }
+};
+static std::string show_seen(const std::vector<Seen>& v) {
+    std::string d;
+    for (const auto& x : v) d += std::string{osmium::item_type_to_name(static_cast<osmium::item_type>(x.type))} + "#" + std::to_string(x.id) + " ";
+    return d.empty() ? "(nothing)" : d;
+}
+static int64_t id_of(const Item& it) {
+    switch (it.type()) {
+        case osmium::item_type::node:
+        case osmium::item_type::way:
+        case osmium::item_type::relation: return static_cast<const osmium::OSMObject&>(it).id();
+        case osmium::item_type::changeset: return static_cast<const osmium::Changeset&>(it).id();
+        default: return 0;
+    }
+}
+static MockSource make_source(const std::vector<int>& q, std::vector<Seen>* all) {
+    MockSource src;
+    src.buffers.emplace_back(1024, Buffer::auto_grow::yes);
+    int64_t id = 10;
+    for (int x : q) {
+        if (SRC_SYM[x] < 0) {
+            src.buffers.emplace_back(1024, Buffer::auto_grow::yes);
+            continue;
+        }
+        add_kind(src.buffers.back(), SRC_SYM[x], id);
+        if (all) {
+            const int k = SRC_SYM[x];
+            const osmium::item_type t = k == K_NODE ? osmium::item_type::node : k == K_WAY ? osmium::item_type::way : k == K_REL ? osmium::item_type::relation : k == K_CS ? osmium::item_type::changeset : osmium::item_type::tag_list;
+            all->push_back(Seen{static_cast<int>(t), k == K_TAGS ? 0 : id});
+        }
+        ++id;
+    }
+    return src;
+}
+template <typename T>
+static void source_typed(const std::vector<int>& q, const std::vector<Seen>& all, bool (*pred)(osmium::item_type), const char* tname) {
+    MockSource src = make_source(q, nullptr);
+    std::vector<Seen> got, want;
+    for (const auto& x : all)
+        if (pred(static_cast<osmium::item_type>(x.type))) want.push_back(x);
+    osmium::io::InputIterator<MockSource, T> it{src};
+    const osmium::io::InputIterator<MockSource, T> end{};
+    for (; it != end; ++it) {
+        const Item& item = reinterpret_cast<const Item&>(*it);
+        got.push_back(Seen{static_cast<int>(item.type()), id_of(item)});
+        if (got.size() > all.size() + 2) break;
+    }
+    if (!(got == want)) vp::fail("dispatch-source", std::string{"InputIterator<source, "} + tname + "> over " + show_src_seq(q) + " yields " + show_seen(got) + "| expected " + show_seen(want));
+    VP_CHECK(src.reads == src.buffers.size() + 1, "dispatch-source", "InputIterator<source, " << tname << "> over " << show_src_seq(q) << " called read() " << src.reads << " times for " << src.buffers.size() << " buffers (expected every buffer and the end marker exactly once)");
+}
+static void run_source(const std::vector<int>& q, vp::Local& L) {
+    std::vector<Seen> all;
+    (void)make_source(q, &all);
+    using it = osmium::item_type;
+    source_typed<Item>(q, all, [](it) { return true; }, "Item");
+    source_typed<osmium::OSMEntity>(q, all, [](it t) { return t != it::tag_list; }, "OSMEntity");
+    source_typed<osmium::OSMObject>(q, all, [](it t) { return t == it::node || t == it::way || t == it::relation; }, "OSMObject");
+    source_typed<osmium::Node>(q, all, [](it t) { return t == it::node; }, "Node");
+    source_typed<osmium::Way>(q, all, [](it t) { return t == it::way; }, "Way");
+    source_typed<osmium::Relation>(q, all, [](it t) { return t == it::relation; }, "Relation");
+    source_typed<osmium::Changeset>(q, all, [](it t) { return t == it::changeset; }, "Changeset");
+    source_typed<const osmium::Way>(q, all, [](it t) { return t == it::way; }, "const Way");
+    // handlers applied to an iterator range over the source: every item, in order, flush once
+    {
+        struct IdH : public osmium::handler::Handler {
+            std::vector<Seen>* out;
+            int* flushes;
+            void node(const osmium::Node& o) { out->push_back(Seen{static_cast<int>(it::node), o.id()}); }
+            void way(const osmium::Way& o) { out->push_back(Seen{static_cast<int>(it::way), o.id()}); }
+            void relation(const osmium::Relation& o) { out->push_back(Seen{static_cast<int>(it::relation), o.id()}); }
+            void changeset(const osmium::Changeset& o) { out->push_back(Seen{static_cast<int>(it::changeset), o.id()}); }
+            void tag_list(const osmium::TagList&) { out->push_back(Seen{static_cast<int>(it::tag_list), 0}); }
+            void flush() { ++*flushes; }
+        };
+        MockSource src = make_source(q, nullptr);
+        std::vector<Seen> got;
+        int flushes = 0;
+        IdH h;
+        h.out = &got;
+        h.flushes = &flushes;
+        osmium::apply(osmium::io::InputIterator<MockSource, Item>{src}, osmium::io::InputIterator<MockSource, Item>{}, h);
+        if (!(got == all) || flushes != 1) vp::fail("dispatch-source", "apply(InputIterator range) over " + show_src_seq(q) + " visits " + show_seen(got) + "(" + std::to_string(flushes) + " x flush) | expected " + show_seen(all) + "(1 x flush)");
+    }
+    // apply_diff on a source (needs objects sorted by type): every object once; all ids differ, so each one is first and last
+    {
+        std::vector<Seen> objs;
+        for (const auto& x : all)
+            if (x.type == static_cast<int>(it::node) || x.type == static_cast<int>(it::way) || x.type == static_cast<int>(it::relation)) objs.push_back(x);
+        bool sorted = true;
+        for (size_t i = 1; i < objs.size(); ++i)
+            if (objs[i - 1].type > objs[i].type) sorted = false;
+        if (sorted) {
+            struct DH : public osmium::diff_handler::DiffHandler {
+                std::vector<Seen>* out;
+                bool* flags_ok;
+                void node(const osmium::DiffNode& d) { out->push_back(Seen{static_cast<int>(it::node), d.curr().id()}); if (!d.first() || !d.last() || &d.prev() != &d.curr() || &d.next() != &d.curr()) *flags_ok = false; }
+                void way(const osmium::DiffWay& d) { out->push_back(Seen{static_cast<int>(it::way), d.curr().id()}); if (!d.first() || !d.last() || &d.prev() != &d.curr() || &d.next() != &d.curr()) *flags_ok = false; }
+                void relation(const osmium::DiffRelation& d) { out->push_back(Seen{static_cast<int>(it::relation), d.curr().id()}); if (!d.first() || !d.last() || &d.prev() != &d.curr() || &d.next() != &d.curr()) *flags_ok = false; }
+            };
+            MockSource src = make_source(q, nullptr);
+            std::vector<Seen> got;
+            bool flags_ok = true;
+            DH h;
+            h.out = &got;
+            h.flags_ok = &flags_ok;
+            osmium::apply_diff(src, h);
+            if (!(got == objs) || !flags_ok) vp::fail("diff-source", "apply_diff(source) over " + show_src_seq(q) + " presents " + show_seen(got) + (flags_ok ? "" : "(with wrong first/last/prev/next) ") + "| expected " + show_seen(objs));
+            L.count("source_with_apply_diff");
+        }
+    }
+    size_t nbuf = 1, empties = 0, cur = 0;
+    for (int x : q) {
+        if (SRC_SYM[x] < 0) {
+            ++nbuf;
+            if (cur == 0) ++empties;
+            cur = 0;
+        } else ++cur;
+    }
+    if (nbuf >= 2) {
+        ++L.nontrivial;
+        L.count("source_with_several_buffers");
+    }
+    if (empties) L.count("source_with_buffer_without_items");
+}
+
 int main(int argc, char** argv) {
     vp::parse_args(argc, argv);
     std::vector<vp::Sub> subs;
@@ -676,6 +824,16 @@ int main(int argc, char** argv) {
     }
     {
         vp::Sub s;
+        s.name = "source";
+        s.domain = n_seq_upto(6, 6);
+        s.quick_stride = 3;
+        s.fn = [](uint64_t i, vp::Local& L) { run_source(nth_seq(i, 6), L); };
+        s.show = [](uint64_t i) { return show_src_seq(nth_seq(i, 6)); };
+        s.block = 64;
+        subs.push_back(s);
+    }
+    {
+        vp::Sub s;
         s.name = "reader";
         s.domain = 20000;
         s.quick_stride = 10;
@@ -689,5 +847,5 @@ int main(int argc, char** argv) {
                         "item types) plus seeded sequences of length 5..44, each run through 9 apply()/apply_item() forms (const/non-const buffer, Item/OSMObject/Way "
                         "iterator ranges, 1-6 handlers: static const and non-const handlers, DynamicHandler, ChainHandler, lambdas with const/non-const parameters); all "
                         "version histories of <=4 objects x runs 1..4 x types (with and without equal ids across types) through DiffIterator and apply_diff with 1 and 3 "
-                        "handlers; seeded OPL files through apply(Reader) and InputIterator. Oracle: ordered call-log model. non-trivial = sequence/history with >= 2 items");
+                        "handlers; all sequences of length 0..6 over {node, way, relation, changeset, tag_list, buffer boundary} delivered by a multi-buffer source and read through InputIterator<source, T> for eight item types, apply() on the iterator range and apply_diff(source); seeded OPL files through apply(Reader) and InputIterator. Oracle: ordered call-log model. non-trivial = sequence/history with >= 2 items");
 }
